@@ -49,8 +49,9 @@ impl Triangulation {
             h
         });
 
-        // NOTE: the naming of the `ConstrainedDelaunayTriangulation::can_add_constraint` method is misleading.
-        if !self.delaunay.can_add_constraint(handle1, handle2) {
+        // NOTE: `can_add_constraint` returns `true` if the new constraint doesn't intersect any existing
+        //       constraint (it used to return the opposite in `spade` versions older than 2.2).
+        if self.delaunay.can_add_constraint(handle1, handle2) {
             let _ = self.delaunay.add_constraint(handle1, handle2);
         }
     }
